@@ -7,6 +7,12 @@
 //	failnth:<n>             exit 1 at the n-th call (1-based, counted in the log file)
 //	block:<sub>:<gatefile>  at subcommand <sub>: create <gatefile>.reached, then wait until <gatefile> exists
 //	corrupt:build           run the real go build, then overwrite the -o output with text
+//	failafter:<sub>:<ms>    at subcommand <sub>: sleep <ms> milliseconds, then exit 1 (a go tool that fails late)
+//	delay:<sub>:<ms>        at subcommand <sub>: sleep <ms> milliseconds, then go on (a slow go tool)
+//
+// If VERIF_FAKEGO_WATCH names a path, every call also appends "<sub> <a> <b>" to <log>.stat: does that
+// path exist (Lstat) when the call starts (a) and when it is about to fail / to hand over to the real go
+// tool (b).  The harness points it at mage_output_file.go: which go commands run while it exists.
 //
 // Otherwise (and after block) it execs the real go tool (VERIF_FAKEGO_REAL, else the first "go"
 // on PATH that is not this program) with the same arguments and environment.
@@ -68,18 +74,48 @@ func main() {
 		}
 	}
 	n++
+	watch := os.Getenv("VERIF_FAKEGO_WATCH")
+	seen := func() string {
+		if watch == "" {
+			return "-"
+		}
+		if _, err := os.Lstat(watch); err == nil {
+			return "1"
+		}
+		return "0"
+	}
+	atStart := seen()
+	stat := func() {
+		if logf := os.Getenv("VERIF_FAKEGO_LOG"); logf != "" && watch != "" {
+			if f, err := os.OpenFile(logf+".stat", os.O_WRONLY|os.O_CREATE|os.O_APPEND, 0666); err == nil {
+				fmt.Fprintf(f, "%s %s %s\n", sub, atStart, seen())
+				f.Close()
+			}
+		}
+	}
 	corrupt := false
 	for _, d := range strings.Split(os.Getenv("VERIF_FAKEGO_PLAN"), ";") {
 		parts := strings.SplitN(d, ":", 3)
 		switch {
 		case len(parts) == 2 && parts[0] == "fail" && parts[1] == sub:
+			stat()
 			fmt.Fprintln(os.Stderr, "fakego: injected failure of go", sub)
 			os.Exit(1)
 		case len(parts) == 2 && parts[0] == "failnth":
 			if k, err := strconv.Atoi(parts[1]); err == nil && k == n {
+				stat()
 				fmt.Fprintln(os.Stderr, "fakego: injected failure of call", n, "go", sub)
 				os.Exit(1)
 			}
+		case len(parts) == 3 && parts[0] == "failafter" && parts[1] == sub:
+			ms, _ := strconv.Atoi(parts[2])
+			time.Sleep(time.Duration(ms) * time.Millisecond)
+			stat()
+			fmt.Fprintln(os.Stderr, "fakego: injected late failure of go", sub)
+			os.Exit(1)
+		case len(parts) == 3 && parts[0] == "delay" && parts[1] == sub:
+			ms, _ := strconv.Atoi(parts[2])
+			time.Sleep(time.Duration(ms) * time.Millisecond)
 		case len(parts) == 3 && parts[0] == "block" && parts[1] == sub:
 			ioutil.WriteFile(parts[2]+".reached", []byte("x"), 0666)
 			for i := 0; i < 6000; i++ {
@@ -92,6 +128,7 @@ func main() {
 			corrupt = true
 		}
 	}
+	stat()
 	real := realGo()
 	if corrupt {
 		c := exec.Command(real, args...)
